@@ -18,6 +18,9 @@ type Enab struct {
 	Thr    zapcore.Level
 	Atomic zap.AtomicLevel
 	Set    [256]bool
+	// Shadow, when set, is the harness's own record of the level last requested for this shared
+	// AtomicLevel (through whatever route): the model follows the request, the core follows zap.
+	Shadow *zapcore.Level
 }
 
 // On is the model: does the enabler enable l.
@@ -26,6 +29,9 @@ func (e *Enab) On(l zapcore.Level) bool {
 	case "static":
 		return l >= e.Thr
 	case "atomic":
+		if e.Shadow != nil {
+			return l >= *e.Shadow
+		}
 		return l >= e.Atomic.Level()
 	}
 	return e.Set[int(l)+128]
@@ -76,7 +82,12 @@ func (g *G) Enabler(atomics []zap.AtomicLevel) *Enab {
 		return &Enab{Kind: "static", Thr: thr()}
 	case 1:
 		if len(atomics) > 0 {
-			return &Enab{Kind: "atomic", Atomic: rng.Pick(r, atomics)}
+			k := r.Intn(len(atomics))
+			e := &Enab{Kind: "atomic", Atomic: atomics[k]}
+			if g.AtomicShadow != nil && k < len(g.AtomicShadow) {
+				e.Shadow = &g.AtomicShadow[k]
+			}
+			return e
 		}
 		return &Enab{Kind: "atomic", Atomic: zap.NewAtomicLevelAt(thr())}
 	case 2: // arbitrary, also non-monotone, subset
